@@ -145,9 +145,143 @@ namespace
 
     struct Outcome { std::optional<std::string> violation; std::string sig; bool nontrivial{false}; std::uint64_t ticks{0}; };
 
+    // ---- collection (TSS) input: branches that fold the input's DELTA must be handed the whole current set when they are selected -------------
+    struct SetWriter
+    {
+        static constexpr auto name = "c12_set_writer";
+        static constexpr bool schedule_on_start = true;
+        static void eval(NodeScheduler sched, DateTime now, Out<TSS<Int>> out)
+        {
+            const long c = rel(now);
+            if (c < static_cast<long>(g->iscript.size()))
+                for (auto &op : split(g->iscript[static_cast<std::size_t>(c)], ','))
+                {
+                    if (op.empty()) continue;
+                    if (op[0] == '+') (void)out.add(Int{std::stol(op.substr(1))}); else (void)out.remove(Int{std::stol(op.substr(1))});
+                }
+            if (c + 1 < static_cast<long>(g->iscript.size())) sched.schedule(MIN_TD);
+        }
+    };
+    struct NFold   // running total maintained from added()/removed() only
+    {
+        static constexpr auto name = "c12_fold";
+        static void start(State<Int> n) { n.set(Int{0}); }
+        static void eval(In<"s", TSS<Int>> s, State<Int> n, Out<TS<Int>> out)
+        {
+            Int t = n.get();
+            for (auto x : s.added()) t += x;
+            for (auto x : s.removed()) t -= x;
+            n.set(t); out.set(t);
+        }
+    };
+    struct NSize { static constexpr auto name = "c12_size"; static void eval(In<"s", TSS<Int>> s, Out<TS<Int>> out) { Int k = 0; for (auto x : s.values()) { (void)x; ++k; } out.set(Int{1000 + k}); } };
+    struct BFold { static constexpr auto name = "c12_b_fold"; static Port<TS<Int>> compose(Wiring &w, Port<TSS<Int>> s) { return wire<NFold>(w, s); } };
+    struct BSize { static constexpr auto name = "c12_b_size"; static Port<TS<Int>> compose(Wiring &w, Port<TSS<Int>> s) { return wire<NSize>(w, s); } };
+
+    // desc: set<r|->|<kscript>|<set ops script>   key 1 -> fold, key 2 -> size
+    Outcome run_set_desc(const std::string &desc)
+    {
+        Outcome out;
+        auto parts = split(desc, '|');
+        const bool reload = parts.at(0).size() > 3 && parts.at(0)[3] == 'r';
+        Run run;
+        run.kscript = split(parts.at(1), ';');
+        run.iscript = split(parts.at(2), ';');
+        run.cycles = static_cast<int>(run.kscript.size());
+        const long end = run.cycles + 6;
+        std::string exc;
+        g = &run;
+        try
+        {
+            Wiring w;
+            auto key = wire<TsWriter>(w, Int{0});
+            auto in = wire<SetWriter>(w);
+            stdlib::SwitchCases cases;
+            cases.cases.push_back({Value{Int{1}}, fn<BFold>()});
+            cases.cases.push_back({Value{Int{2}}, fn<BSize>()});
+            cases.reload_on_ticked = reload;
+            Port<TS<Int>> o = wire<stdlib::switch_>(w, key, cases, in).template as<TS<Int>>();
+            wire<EveryProbe<TS<Int>>>(w, o);
+            GraphBuilder gb = std::move(w).finish();
+            GraphExecutorBuilder eb;
+            eb.graph_builder(std::move(gb)).start_time(MIN_ST).end_time(MIN_ST + TimeDelta{end});
+            auto ex = eb.make_executor();
+            ex.view().run();
+        }
+        catch (const std::exception &e) { exc = e.what(); }
+        g = nullptr;
+        if (!exc.empty()) { out.violation = "run threw: " + exc; return out; }
+        // reference: per branch life, the branch alone on a set writer that adds the WHOLE current set in its first cycle
+        std::set<long> cur;
+        bool set_valid = false;
+        long active_key = LONG_MIN;
+        struct Life { long start; long key; std::vector<std::string> ops; };
+        std::vector<Life> lives;
+        for (long c = 0; c < run.cycles; ++c)
+        {
+            bool ticked = false;
+            std::string ops_now = run.iscript[static_cast<std::size_t>(c)];
+            for (auto &op : split(ops_now, ',')) { if (op.empty()) continue; ticked = true; const long v = std::stol(op.substr(1)); if (op[0] == '+') cur.insert(v); else cur.erase(v); }
+            if (ticked) set_valid = true;
+            const std::string &k = run.kscript[static_cast<std::size_t>(c)];
+            bool fresh = false;
+            if (!k.empty())
+            {
+                const long kv = std::stol(k.substr(1));
+                if (kv != active_key || reload) { active_key = kv; fresh = true; lives.push_back(Life{c, kv, {}}); }
+            }
+            if (lives.empty()) continue;
+            Life &l = lives.back();
+            if (fresh)
+            {
+                // the fresh branch is handed the held input: every current element is new to it
+                std::string all;
+                if (set_valid) for (long v : cur) all += (all.empty() ? "+" : ",+") + std::to_string(v);
+                l.ops.push_back(all);
+                if (set_valid && cur.empty()) l.ops.back() = "+99,-99";   // valid but empty: make the alone writer valid-and-empty
+            }
+            else l.ops.push_back(ops_now);
+        }
+        std::map<long, std::string> want;   // cycle -> value text of every expected output tick
+        for (std::size_t li = 0; li < lives.size(); ++li)
+        {
+            const Life &l = lives[li];
+            const long life_end = li + 1 < lives.size() ? lives[li + 1].start : end;
+            Run r; r.iscript = l.ops; r.cycles = static_cast<int>(l.ops.size());
+            Run *saved = g; g = &r;
+            try
+            {
+                Wiring w;
+                auto in = wire<SetWriter>(w);
+                Port<TS<Int>> o = l.key == 1 ? wire<NFold>(w, in) : wire<NSize>(w, in);
+                wire<EveryProbe<TS<Int>>>(w, o);
+                GraphBuilder gb = std::move(w).finish();
+                GraphExecutorBuilder eb;
+                eb.graph_builder(std::move(gb)).start_time(MIN_ST).end_time(MIN_ST + TimeDelta{life_end - l.start});
+                auto ex = eb.make_executor();
+                ex.view().run();
+            }
+            catch (...) { g = saved; throw; }
+            g = saved;
+            for (auto &sm : r.samples) if (sm.modified && sm.valid) want[l.start + sm.t] = sm.value;
+        }
+        std::map<long, std::string> got;
+        std::ostringstream sig;
+        for (auto &sm : run.samples) { if (sm.modified && sm.valid) { got[sm.t] = sm.value; ++out.ticks; } sig << (sm.valid ? sm.value : "-") << ","; }
+        out.sig = "set#" + sig.str();
+        out.nontrivial = lives.size() >= 2;
+        if (got != want)
+        {
+            auto show = [](const std::map<long, std::string> &m) { std::string o; for (auto &[c, v] : m) o += " t" + std::to_string(c) + "=" + v; return o.empty() ? std::string{" (none)"} : o; };
+            out.violation = "switch over a set input: output ticks" + show(got) + " but the selected branches alone (each handed the whole current set when selected) give" + show(want);
+        }
+        return out;
+    }
+
     // desc: <table><d|-><r|->|<kscript>|<iscript>
     Outcome run_desc(const std::string &desc)
     {
+        if (desc.rfind("set", 0) == 0) return run_set_desc(desc);
         Outcome out;
         auto parts = split(desc, '|');
         const std::string cfg = parts.at(0);
@@ -295,6 +429,45 @@ void verif_enumerate(verif::Ctx &ctx)
             for (int c = 0; c < T; ++c) s += (c ? ";" : "") + (((m >> c) & 1u) ? "v" + std::to_string(11 + c) : std::string{});
             iscripts.push_back(s);
         }
+    }
+    {
+        // collection input: every key history over {none, 1, 2} x every set history, with and without reload
+        const int TS_ = 4;
+        const std::vector<std::string> skeys = {"", "v1", "v2"};
+        std::vector<std::string> sops = {"", "+1", "+2", "-1", "+1,+2", "+3"};
+        if (th) sops.push_back("-2");
+        auto all_scripts = [&](const std::vector<std::string> &alpha) {
+            std::vector<std::string> out; std::vector<int> idx(static_cast<std::size_t>(TS_), 0);
+            while (true)
+            {
+                std::string s2;
+                for (int c = 0; c < TS_; ++c) s2 += (c ? ";" : "") + alpha[static_cast<std::size_t>(idx[static_cast<std::size_t>(c)])];
+                out.push_back(s2);
+                int p2 = 0;
+                while (p2 < TS_ && ++idx[static_cast<std::size_t>(p2)] == static_cast<int>(alpha.size())) { idx[static_cast<std::size_t>(p2)] = 0; ++p2; }
+                if (p2 == TS_) break;
+            }
+            return out;
+        };
+        const auto ks2 = all_scripts(skeys), is2 = all_scripts(sops);
+        for (const char *cfg : {"set-", "setr"})
+            for (auto &ks : ks2) for (auto &is : is2)
+            {
+                if (!ctx.next_is_mine()) continue;
+                const std::string desc = std::string{cfg} + "|" + ks + "|" + is;
+                ++ctx.evaluations; ++ctx.traces;
+                Outcome o = run_desc(desc);
+                ctx.transitions += o.ticks;
+                ctx.state(o.sig);
+                if (o.nontrivial) ctx.nontriv(desc);
+                ctx.count(std::string{"cases_"} + cfg);
+                if (o.violation)
+                {
+                    Outcome o2 = run_desc(desc);
+                    if (!o2.violation || *o2.violation != *o.violation) throw verif::HarnessError("case not reproducible: " + desc);
+                    ctx.violation(desc, *o.violation, std::string{cfg} + ": " + o.violation->substr(0, 44));
+                }
+            }
     }
     for (const char *cfg : {"a--", "ad-", "a-r", "adr", "b--", "bd-", "bdr", "c--", "cd-", "cdr", "s--", "sd-", "s-r", "sdr"})
         for (auto &ks : kscripts)
